@@ -825,7 +825,7 @@ class Rich:
             self.add(st, p, "%s {INTEGER:lo, INTEGER:hi} ::= INTEGER (lo..hi)" % p, "ptype")
             for _ in range(self.r.range(1, 3)):
                 t = self.fresh(st, "Narrow")
-                a = self.r.range(-100, 100)
+                a = self.r.range(-100, -1)     # `{5, 40064}` would be lexed as a Tuple {column, row}
                 self.add(st, t, "%s ::= %s {%d, %d}" % (t, p, a, a + self.r.range(0, 70000)))
         else:
             p = self.fresh(st, "Pair")
@@ -1007,6 +1007,7 @@ def clash_set(rng):
         defs_in[s] = sorted(who)
     shared_value = "maxv" if rng.chance(1, 2) else None
     with_param = rng.chance(1, 3)
+    with_ioc = rng.chance(1, 4)
     mods, pinst = [], []
     for i in range(k):
         pfx = "M%s" % "abc"[i].upper()
@@ -1046,6 +1047,23 @@ def clash_set(rng):
             lines.append("%s ::= Boxed { %s }" % (u, arg[0] if arg else rng.choice(["INTEGER", "BOOLEAN", "IA5String"])))
             ids.append((u, "type"))
             pinst.append(u)
+        if with_ioc:
+            # information-object class and one object in module 0, object set (with the clashing type
+            # names of its own module among the member types) and the table-constrained type in the last
+            if i == 0:
+                lines.append("XCLS ::= CLASS { &id INTEGER UNIQUE, &Type } WITH SYNTAX { &Type IDENTIFIED BY &id }")
+                ids.append(("XCLS", "class"))
+                arg = [s for s in shared if i in defs_in[s]]
+                lines.append("objA XCLS ::= { %s IDENTIFIED BY 1 }" % (arg[0] if arg else "NULL"))
+                ids.append(("objA", "object"))
+            if i == k - 1:
+                imports.append((["XCLS", "objA"], names[0]))
+                arg = [s for s in shared if i in defs_in[s]]
+                lines.append("XSet XCLS ::= { objA | { %s IDENTIFIED BY 2 } | { BOOLEAN IDENTIFIED BY 3 }%s }"
+                             % (arg[0] if arg else "REAL", rng.choice(["", ", ..."])))
+                ids.append(("XSet", "objset"))
+                lines.append("XFrame ::= SEQUENCE { ident XCLS.&id({XSet}), value XCLS.&Type({XSet}{@ident}) }")
+                ids.append(("XFrame", "type"))
         if rng.chance(1, 3):
             order = rng.shuffle(list(range(len(lines))))
             lines, ids = [lines[j] for j in order], [ids[j] for j in order]
